@@ -70,7 +70,8 @@ def model_run(ops):
     return out
 
 
-BAD_KEYS = ['C+0', 'C+01', 'C+', 'C-', 'Xx', 'c', 'C+1x', 'C+²', '', 'C++1', 'Cl+-1', '+1', 'C 1', '?+1', 'C+٣', 'C-0']
+BAD_KEYS = ['C+0', 'C+01', 'C+', 'C-', 'Xx', 'c', 'C+1x', 'C+²', '', 'C++1', 'Cl+-1', '+1', 'C 1', '?+1', 'C+٣', 'C-0',
+            'C\n', 'Fe+2\n', ' C', 'C ', 'C\t', '\nC', 'C+1\n', 'C\r', 'N-1 ', 'C+1\n\n', '[C]', 'C:1', 'C@', 'CH', 'C1', '13C']
 
 
 def random_dict(rng, valid=None):
